@@ -635,9 +635,11 @@ func c19RunConv(c *c19Case) {
 		r1 := to(vals)
 		c.Regs1 = c19FromU16s(r1)
 		c.Back = nil
+		_ = from(r1) // the registers are read twice: a conversion leaves its input alone
 		for _, v := range from(r1) {
 			c.Back = append(c.Back, int64(v))
 		}
+		_ = from(regs2)
 		v2 := from(regs2)
 		c.Vals2 = nil
 		for _, v := range v2 {
@@ -656,9 +658,11 @@ func c19RunConv(c *c19Case) {
 		r1 := to(vals)
 		c.Regs1 = c19FromU16s(r1)
 		c.Back = nil
+		_ = from(r1) // the registers are read twice: a conversion leaves its input alone
 		for _, v := range from(r1) {
 			c.Back = append(c.Back, int64(v))
 		}
+		_ = from(regs2)
 		v2 := from(regs2)
 		c.Vals2 = nil
 		for _, v := range v2 {
@@ -677,9 +681,11 @@ func c19RunConv(c *c19Case) {
 		r1 := to(vals)
 		c.Regs1 = c19FromU16s(r1)
 		c.Back = nil
+		_ = from(r1) // the registers are read twice: a conversion leaves its input alone
 		for _, v := range from(r1) {
 			c.Back = append(c.Back, int64(math.Float32bits(v)))
 		}
+		_ = from(regs2)
 		v2 := from(regs2)
 		c.Vals2 = nil
 		for _, v := range v2 {
